@@ -1,0 +1,9 @@
+//go:build verif
+
+package mfs
+
+import "github.com/ipfs/boxo/internal/verifhook"
+
+// VerifSetHook is verifhook.SetHook: the hook package is internal to the module, the
+// external verification harness installs its scheduler through this bridge.
+func VerifSetHook(f func(string)) { verifhook.SetHook(f) }
